@@ -309,34 +309,102 @@ pub fn add(run: &mut Run, kf: &KnownFindings, tier: &str) {
     }
     complete_small!(u8, u8, 167u8; i8, u8, 167u8; u16, u16, 40503u16; i16, u16, 40503u16);
 
-    // thorough: the complete f32 space (2^32 bit patterns), ascending and permuted
+    // thorough: the complete f32 space (2^32 bit patterns), ascending and permuted. Pure
+    // computation (no mappings), so unlike the history engines this part does scale across
+    // threads: the page range is split over eight of them.
     let mut f32_done = 0u64;
     let mut f32_cap = None;
     if !quick {
         let budget = std::time::Duration::from_secs(1500);
+        const THREADS: u32 = 8;
         'outer: for (arr, mul) in [("complete_ascending", 1u32), ("complete_permuted", 2654435761u32)] {
-            let mut buf: Vec<f32> = Vec::with_capacity(4096);
-            for hi in 0..(1u32 << 20) {
-                buf.clear();
-                for lo in 0..4096u32 {
-                    buf.push(f32::from_bits((hi << 12 | lo).wrapping_mul(mul)));
-                }
-                page::<PcodecStrategy<f32>, f32>(&mut acc, "pco:f32", arr, &buf);
-                if hi % 4 == 0 {
-                    // the byte-oriented codecs do not look at the number: a quarter of the pages
-                    // (still every exponent/sign combination) goes through them
-                    page::<LZ4Strategy<f32>, f32>(&mut acc, "lz4:f32", arr, &buf);
-                    page::<ZstdStrategy<f32>, f32>(&mut acc, "zstd:f32", arr, &buf);
-                }
-                f32_done += 4096;
-                if hi % 4096 == 0 && t0.elapsed() > budget {
-                    f32_cap = Some(format!("wall cap {}s hit in {arr} after {} bit patterns", budget.as_secs(), f32_done));
-                    break 'outer;
+            let results: Vec<(u64, u64, Option<String>, bool)> = std::thread::scope(|s| {
+                let hs: Vec<_> = (0..THREADS)
+                    .map(|t| {
+                        s.spawn(move || {
+                            let mut buf: Vec<f32> = Vec::with_capacity(4096);
+                            let mut dec: Vec<f32> = Vec::new();
+                            let (mut pages, mut vals) = (0u64, 0u64);
+                            let per = (1u32 << 20) / THREADS;
+                            for hi in t * per..(t + 1) * per {
+                                buf.clear();
+                                for lo in 0..4096u32 {
+                                    buf.push(f32::from_bits((hi << 12 | lo).wrapping_mul(mul)));
+                                }
+                                let bad = guarded(|| -> Option<String> {
+                                    let check = |what: &str, got: &[f32]| -> Option<String> {
+                                        if got.len() != buf.len() {
+                                            return Some(format!("{what}: {} values in, {} out", buf.len(), got.len()));
+                                        }
+                                        got.iter().zip(buf.iter()).position(|(a, b)| a.to_bits() != b.to_bits()).map(|i| {
+                                            format!("{what}: bit pattern {:#010x} came back as {:#010x}", buf[i].to_bits(), got[i].to_bits())
+                                        })
+                                    };
+                                    let enc = match PcodecStrategy::<f32>::compress(&buf) {
+                                        Ok(e) => e,
+                                        Err(e) => return Some(format!("compress: {e:?}")),
+                                    };
+                                    match PcodecStrategy::<f32>::decompress_into(&enc, buf.len(), &mut dec) {
+                                        Ok(()) => {
+                                            if let Some(b) = check("pco decompress_into", &dec) {
+                                                return Some(b);
+                                            }
+                                        }
+                                        Err(e) => return Some(format!("pco decompress_into: {e:?}")),
+                                    }
+                                    if hi % 16 == 0 {
+                                        // the byte-oriented codecs do not look at the number: every
+                                        // sixteenth page (still every sign/exponent combination)
+                                        for (name, r) in [
+                                            ("lz4", LZ4Strategy::<f32>::compress(&buf).and_then(|e| LZ4Strategy::<f32>::decompress(&e, buf.len()))),
+                                            ("zstd", ZstdStrategy::<f32>::compress(&buf).and_then(|e| ZstdStrategy::<f32>::decompress(&e, buf.len()))),
+                                        ] {
+                                            match r {
+                                                Ok(v) => {
+                                                    if let Some(b) = check(name, &v) {
+                                                        return Some(b);
+                                                    }
+                                                }
+                                                Err(e) => return Some(format!("{name}: {e:?}")),
+                                            }
+                                        }
+                                    }
+                                    None
+                                });
+                                pages += 1;
+                                vals += 4096;
+                                match bad {
+                                    Ok(None) => {}
+                                    Ok(Some(b)) => return (pages, vals, Some(b), false),
+                                    Err(p) => return (pages, vals, Some(format!("panic: {p}")), false),
+                                }
+                                if hi % 1024 == 0 && t0.elapsed() > budget {
+                                    return (pages, vals, None, true);
+                                }
+                            }
+                            (pages, vals, None, false)
+                        })
+                    })
+                    .collect();
+                hs.into_iter().map(|h| h.join().expect("valuex thread")).collect()
+            });
+            let mut capped = false;
+            for (p, v, bad, cap) in results {
+                acc.pages += p;
+                acc.values += v;
+                f32_done += v;
+                *acc.per_group.entry("pco:f32".to_string()).or_default() += p;
+                capped |= cap;
+                if let Some(b) = bad {
+                    let kind = b.split(':').next().unwrap_or("?").to_string();
+                    acc.viol("pco:f32", arr, &kind, b);
                 }
             }
-        }
-        if f32_cap.is_none() {
-            complete.push("f32: all 2^32 bit patterns through pcodec, twice (ascending, permuted)".into());
+            if capped {
+                f32_cap = Some(format!("wall cap {}s hit in {arr} after {} bit patterns", budget.as_secs(), f32_done));
+                break 'outer;
+            }
+            complete.push(format!("f32: all 2^32 bit patterns ({arr}) through pcodec, every sixteenth page also through LZ4 and Zstd"));
         }
     }
 
